@@ -367,11 +367,17 @@ pub fn get_datacake_timestamp() -> Duration {
         return parts_as_duration(seconds, fractional);
     }
 
-    let duration = SystemTime::now().duration_since(UNIX_EPOCH).unwrap();
+    // A system clock which (still) reads a time before the epoch is treated as reading
+    // the epoch itself rather than panicking, a clock which is ahead of it then gets
+    // refused through the drift check as with any other clock that is behind.
+    let duration = SystemTime::now()
+        .duration_since(UNIX_EPOCH)
+        .unwrap_or_default();
     #[cfg(feature = "verif")]
     let duration = verif_clock::injected_unix().unwrap_or(duration);
 
-    let (seconds, fractional) = duration_to_parts(duration - DATACAKE_EPOCH);
+    let (seconds, fractional) =
+        duration_to_parts(duration.saturating_sub(DATACAKE_EPOCH));
     parts_as_duration(seconds, fractional)
 }
 
